@@ -1375,11 +1375,13 @@ class MultiDimGridPDF(
             pd = self._cache_pd
         else:
             pd = self._cache_pd[evt_mask]
-            # If this PDF is evaluated for different sources, i.e. a subset of
-            # pd values, those values could still be NaN and still need to be
-            # calculated.
-            if np.any(np.isnan(pd)):
-                return None
+
+        # If this PDF is evaluated for different sources, i.e. a subset of
+        # pd values, those values could still be NaN and still need to be
+        # calculated. This also holds if all values are requested after only
+        # a subset of the values has been calculated.
+        if np.any(np.isnan(pd)):
+            return None
 
         return pd
 
